@@ -91,9 +91,9 @@ def check_prettyprint(rep, prog, ascii_only):
         """t is the i-th element of `lines` -> i (a term)"""
         if isinstance(t, Op) and t.op in ("getitem", "elem") and t.args[0] == lines:
             return t.args[1]
-        if isinstance(t, Op) and t.op == "unpack" and t.args[1] == Const(1) and isinstance(t.args[0], Op) and t.args[0].op == "elem" and \
+        if isinstance(t, Op) and t.op == "getitem" and t.args[1] == Const(1) and isinstance(t.args[0], Op) and t.args[0].op == "elem" and \
                 t.args[0].args[0] == Op("enumerate", lines):
-            return Op("unpack", t.args[0], Const(0))
+            return Op("getitem", t.args[0], Const(0))
         return None
     li = elem_index(line) if line is not None else None
     same_slot = li is not None and (idx == li or (isinstance(li, Sym) and idx == li))
@@ -158,7 +158,7 @@ def check_call_sites(rep, prog):
             ok = False
             if isinstance(a, Op) and a.op == "call:" + PP and isinstance(a.args[0], Op) and a.args[0].op == "json.dumps":
                 ok = True
-            elif isinstance(a, Op) and a.op == "unpack" and a.args[1] == Const(1) and isinstance(a.args[0], Op) and a.args[0].op == "call:" + PT + "parsePEL":
+            elif isinstance(a, Op) and a.op == "getitem" and a.args[1] == Const(1) and isinstance(a.args[0], Op) and a.args[0].op == "call:" + PT + "parsePEL":
                 ok = True
             rep.check(ok, rule, "%s:%s emits prettyPrint(json.dumps(...)) unmodified" % (e.func.split(".")[-1], getattr(e.node, "lineno", "?")), e.func, e.node,
                       "JSON text is post-processed / emitted without going through json.dumps+prettyPrint only: %r" % (a,), node=e.node)
